@@ -203,6 +203,10 @@ def make(shape: Dict[str, Any]) -> Any:
                 return _orig(self, *a, **kw)
 
             setattr(DNSIncoming, meth, counting)
+        # pre-state: the process-wide memo of decode-error texts already holds this many entries (after hours of hostile traffic)
+        inc._seen_logs.clear()
+        for k in range(shape.get('error_memo', 0)):
+            inc._seen_logs[f'earlier decode error {k}'] = 1
         try:
             if counts == 'symbolic':
                 hdr = [wire.Tok(ctx.int('id', 0, 65535), 2), wire.Tok(ctx.int('flags', 0, 65535), 2)] + [wire.Tok(ctx.int(f'count{i}', 0, 1), 2) for i in range(4)]
@@ -264,6 +268,7 @@ def make(shape: Dict[str, Any]) -> Any:
             for meth, orig in saved.items():
                 setattr(DNSIncoming, meth, orig)
             dns.hash = env._native_hash  # type: ignore[attr-defined]
+            inc._seen_logs.clear()
 
     return fn
 
@@ -405,6 +410,12 @@ def make_chain(shape: Dict[str, Any]) -> Any:
                 ref = Strict(pkt).parse()
             except (Reject, IndexError):
                 return
+            # names holding octets that are not valid UTF-8 (here: pointer cells read as label content) have no faithful text form in the
+            # library - it replaces them, and since fix 82d198a rejects a label that no longer fits 63 octets once replaced - so the
+            # comparison with the octet-level reader is made only for datagrams whose names are all text (mDNS names are UTF-8, RFC 6762 16)
+            all_names = [lb for lb, _, _ in ref['questions']] + [w['name'] for w in ref['records']] + [w['rdata'] for w in ref['records'] if w['type'] in (12, 5)]
+            if not all(text_comparable(n) for n in all_names):
+                return
             if not ctx.check(msg.valid, 'a datagram the strict RFC 1035 reader accepts is marked invalid'):
                 return
             ctx.check(msg.id == ref['id'], 'header id differs from the strict reader')
@@ -484,8 +495,43 @@ def make_long_name(shape: Dict[str, Any]) -> Any:
     return fn
 
 
+def make_two_questions(shape: Dict[str, Any]) -> Any:
+    """Two questions with concrete names whose type and class words are solver variables: per-question QU bit, type, class and the
+    message-level "has a QU question" flag (which the duplicate guard of the listener relies on) against the strict reader."""
+
+    def fn(ctx: Any) -> None:
+        env.begin(ctx, 7777)
+        dns.hash = lambda t: 0  # type: ignore[attr-defined]
+        del OCTET_TABLE[:]
+        try:
+            hdr = [wire.Tok(ctx.int('id', 0, 65535), 2), wire.Tok(0, 2), wire.Tok(2, 2), wire.Tok(0, 2), wire.Tok(0, 2), wire.Tok(0, 2)]
+            body: List[Any] = []
+            for i in range(2):
+                body += [wire.Tok(1, 1), b'ab'[i:i + 1], wire.Tok(0, 1), wire.Tok(ctx.int(f'type{i}', 0, 65535), 2), wire.Tok(ctx.int(f'class{i}', 0, 65535), 2)]
+            pkt = SymPacket(hdr + body)
+            try:
+                msg = DNSIncoming(pkt, ('10.0.0.9', 5353), None, 1000)  # type: ignore[arg-type]
+                questions = msg.questions
+            except Exception as e:
+                ctx.check(False, f'exception {type(e).__name__} escaped the decoder')
+                return
+            if ctx.twin:
+                return
+            ref = Strict(pkt).parse()
+            if not ctx.check(msg.valid and len(questions) == 2, 'two well-formed questions are not decoded'):
+                return
+            for q, (labels, t, c) in zip(questions, ref['questions']):
+                ctx.check(q.type == t and q.class_ == c % 32768 and q.unique == (c >= 32768), 'question type / class / QU bit differs from the strict reader')
+            ctx.check(msg.has_qu_question() == any(c >= 32768 for _, _, c in ref['questions']), 'the message-level QU flag is not "some question has the QU bit"')
+        finally:
+            dns.hash = env._native_hash  # type: ignore[attr-defined]
+
+    return fn
+
+
 def obligations(tier: str) -> List[Obligation]:
     obs = []
+    obs.append(Obligation('decode[two questions;symbolic type and class words]', make_two_questions({}), 'decode-questions', {}, timeout=120))
     P = 5 if tier == 'quick' else 7
     templates = [
         ('question', [1, 0, 0, 0], 0),
@@ -498,6 +544,9 @@ def obligations(tier: str) -> List[Obligation]:
         for p in sorted({3, P} if tier == 'quick' else {3, 5, P}):
             shape = {'payload': p, 'counts': counts, 'flags': flags}
             obs.append(Obligation(f'decode[{name};payload={p}]', make(shape), 'decode', shape, timeout=280 if tier == 'quick' else 1500))
+    for memo in ((600,) if tier == 'quick' else (511, 512, 513, 5000)):
+        shape = {'payload': 3, 'counts': [1, 0, 0, 0], 'flags': 0, 'error_memo': memo}
+        obs.append(Obligation(f'decode[question;payload=3;error-memo={memo}]', make(shape), 'decode', shape, timeout=280 if tier == 'quick' else 1500))
     rts = [('A', 1, 1, 3), ('AAAA', 28, 14, 2), ('PTR', 12, 0, 3), ('TXT', 16, 0, 3), ('SRV', 33, 6, 2), ('HINFO', 13, 0, 2), ('NSEC', 47, 0, 3), ('unknown', 99, 0, 3)]
     for name, t, prefix, R in rts:
         for nm in (((0,) if name in ('AAAA', 'HINFO') else (1,)) if tier == 'quick' else (1, 2)):
